@@ -488,3 +488,48 @@ func vH_C14_fmt() {
 	}
 	vCover("done")
 }
+
+// C19 under concurrency: two key-only readers race on the same unloaded item.
+func vH_C19_race() {
+	cfg := vCfgFromParams()
+	cfg.file, cfg.cache = true, 2
+	pre := vBuildPre(cfg)
+	cfg = pre.cfg
+	vAssert("flush-ok", pre.s.Flush() == nil)
+	f := pre.f
+	dec := vDecode(f.data, int64(len(f.data)))
+	vAssert("decodes", dec.ok)
+	s2, err := NewStore(f)
+	vAssert("open-ok", vAnd(err == nil, s2 != nil))
+	c := s2.GetCollection(cfg.name)
+	if len(pre.m.ents) == 0 {
+		return
+	}
+	key := pre.m.ents[vChoose("which-key", 0, len(pre.m.ents)-1)].key
+	f.resetLogs()
+	f.yield = true
+	var d1, d2 bool
+	go func() {
+		_, err := c.GetItem(key, false)
+		vAssert("reader1-noerr", err == nil)
+		d1 = true
+	}()
+	go func() {
+		if vChoose("reader2-op", 0, 1) == 0 {
+			_, err := c.GetItem(key, false)
+			vAssert("reader2-noerr", err == nil)
+		} else {
+			_, err := c.MinItem(false)
+			vAssert("reader2-noerr", err == nil)
+		}
+		d2 = true
+	}()
+	vBlockUntil(&d1)
+	vBlockUntil(&d2)
+	f.yield = false
+	vReadsAvoid("concurrent-keyonly-read-touches-value", f, dec)
+	if vPreemptions() > 0 {
+		vCover("preempted")
+	}
+	vCover("done")
+}
